@@ -24,7 +24,7 @@ import (
 // when the model says "unrecovered", and the go statement named by the crash trace must be among the reported creators.
 
 var c19Forms = []string{"named", "method", "closure", "closure-capture", "closure-var", "funcvalue", "methodvalue", "iface", "in-closure", "in-goroutine"}
-var c19Recs = []string{"none", "closure-recover", "named-recover", "cond-recover", "other-defer", "nested-only", "recover-var", "other-defer-capture", "recover-capture"}
+var c19Recs = []string{"none", "closure-recover", "named-recover", "cond-recover", "other-defer", "nested-only", "recover-var", "other-defer-capture", "recover-capture", "defer-recover-builtin", "recover-in-inner-closure", "method-recover"}
 
 type c19Launch struct {
 	Form   string `json:"form"`
@@ -35,7 +35,7 @@ type c19Launch struct {
 
 func (l c19Launch) recovers() bool {
 	switch l.Rec {
-	case "closure-recover", "named-recover", "cond-recover", "recover-var", "recover-capture":
+	case "closure-recover", "named-recover", "cond-recover", "recover-var", "recover-capture", "method-recover":
 		return true
 	}
 	return false
@@ -62,6 +62,14 @@ func c19RecLines(rec string) []string {
 		return []string{"rv := func() { recover() }", "defer rv()"}
 	case "other-defer-capture":
 		return []string{"oc := 1", "defer func() { note = string(rune('a' + oc)) }()"}
+	case "defer-recover-builtin":
+		// recover is the deferred function itself, not called BY a deferred function: it does not stop the panic
+		return []string{"defer recover()"}
+	case "recover-in-inner-closure":
+		// recover called by a function that the deferred function calls: does not stop the panic
+		return []string{"defer func() {", "\tfunc() { recover() }()", "}()"}
+	case "method-recover":
+		return []string{"defer recT{}.rec()"}
 	case "recover-capture":
 		return []string{"rc := 1", "defer func() {", "\tif recover() != nil {", "\t\tnote = string(rune('a' + rc))", "\t}", "}()"}
 	}
@@ -173,7 +181,7 @@ func c19Gen(t *rapid.T, off map[string]bool) *c19Case {
 	}
 	var b strings.Builder
 	b.WriteString("package main\n\nvar done = make(chan int, 64)\nvar note string\n\ntype Runner interface{ Run() }\n\n")
-	b.WriteString("func rec() { recover() }\n\nfunc nested() { recover() }\n\nfunc idle() { done <- 1 }\n\n")
+	b.WriteString("type recT struct{}\n\nfunc (recT) rec() { recover() }\n\nfunc rec() { recover() }\n\nfunc nested() { recover() }\n\nfunc idle() { done <- 1 }\n\n")
 	b.WriteString("func boom(i int) {\n\tif cond(i) {\n\t\tpanic(\"boom\")\n\t}\n}\n\n")
 	b.WriteString(strings.Join(decl, "\n"))
 	b.WriteString("\nfunc main() {\n")
@@ -312,7 +320,8 @@ func TestC19(t *testing.T) {
 		"without captures, closure variable, function value (phi of two functions), method value, interface method, go inside a closure, go "+
 		"inside another goroutine} whose entry functions defer {nothing, a closure calling recover, a named function calling recover, a "+
 		"conditional recover, a non-recovering closure, a closure that only calls a function that calls recover, a recovering closure "+
-		"variable}; oracle: (a) reference model - every go statement whose entry function has no directly recovering defer is reported with "+
+		"variable, a recovering method, `defer recover()` itself (does not recover), a closure whose inner closure calls recover (does not "+
+		"recover)}; the model's recovers/does-not-recover verdict is itself validated by the native run; oracle: (a) reference model - every go statement whose entry function has no directly recovering defer is reported with "+
 		"that creation site; (b) native runs in which exactly one goroutine panics: the go statement named by the crash trace is a reported "+
 		"creation site; non-trivial = >= 2 launch forms of which one is not a named function / closure literal, and >= 1 unrecovered entry; "+
 		"distinct = hash of program")
